@@ -218,7 +218,7 @@ type varObs struct {
 	Extra     string                   `json:"extra,omitempty"`
 }
 
-var varReadNames = []string{"a", "b", "c", "n.k", "n", "m"}
+var varReadNames = []string{"a", "b", "c", "n.k", "n", "m", "l.0", "l.1.x"}
 
 // observeWorld performs every read of one case.  It runs inside a child process.
 func observeWorld(w *vworld, withFlat bool, wo vworldOpts) (o varObs) {
